@@ -266,9 +266,9 @@ package geometry
 //@ spec func bsClockwise(s *baseSeries) bool { s.clockwise }
 //@ spec func bsNpts(s *baseSeries) int { len(s.points) }
 //@ spec func sNpts(s Series) int { ite(isBS(s), bsNpts(s), 5) }
-//@ spec func sPt(s Series, i int) Point { ite(isBS(s), bsPt(s,i), rectPt(unboxRect(s), i)) }
+//@ spec func sPt(s Series, i int) Point opaque { ite(isBS(s), bsPt(s,i), rectPt(unboxRect(s), i)) }
 //@ spec func sNseg(s Series) int { ite(isBS(s), bsNseg(s), 4) }
-//@ spec func sSeg(s Series, i int) Segment { ite(isBS(s), bsSeg(s,i), rectSeg(unboxRect(s), i)) }
+//@ spec func sSeg(s Series, i int) Segment opaque { ite(isBS(s), bsSeg(s,i), rectSeg(unboxRect(s), i)) }
 //@ spec func sRect(s Series) Rect { ite(isBS(s), bsRectOf(s), unboxRect(s)) }
 //@ spec func sClosed(s Series) bool { ite(isBS(s), bsClosed(s), true) }
 //@ spec func sConvex(s Series) bool { ite(isBS(s), bsConvex(s), true) }
@@ -295,3 +295,78 @@ package geometry
 //@   props C04 C01
 //@   requires SeriesInv(self)
 //@   iter iter(idx) dom 0 <= idx && idx < sNseg(self) ; match rectsMeet(segRect(sSeg(self, idx)), rect) ; args sSeg(self, idx), idx
+
+// ---------------------------------------------------------------- C01: point membership by crossing parity
+
+//@ spec func inDom(p Point) bool { isInt(p.X) && isInt(p.Y) && -1048576 <= p.X && p.X <= 1048576 && -1048576 <= p.Y && p.Y <= 1048576 }
+//@ spec func seriesInDom(s Series) bool { forall j int :: 0 <= j && j < sNpts(s) ==> inDom(sPt(s, j)) }
+//@ spec func strip(p Point) Rect { mkRect(mkPoint(ninf, p.Y), mkPoint(pinf, p.Y)) }
+//@ spec func segOn(s Series, i int, p Point) bool { onSeg(sSeg(s,i).A, sSeg(s,i).B, p) }
+//@ spec func segIn(s Series, i int, p Point) bool { rayIn(sSeg(s,i).A, sSeg(s,i).B, p) }
+// the property's definition: on some boundary segment / odd crossing parity
+//@ spec func onAny(s Series, p Point, k int) bool rec { k > 0 && (onAny(s,p,k-1) || segOn(s,k-1,p)) }
+//@ spec func par(s Series, p Point, k int) bool rec { k > 0 && (par(s,p,k-1) != segIn(s,k-1,p)) }
+//@ spec func pipClosed(s Series, p Point) bool { onAny(s,p,sNseg(s)) || par(s,p,sNseg(s)) }
+//@ spec func pipOpen(s Series, p Point) bool { !onAny(s,p,sNseg(s)) && par(s,p,sNseg(s)) }
+// parity restricted to the reported set (visiting order is unspecified, so invariants speak about sets)
+//@ spec func parSeen(seen set, s Series, p Point, k int) bool rec { k > 0 && (parSeen(seen,s,p,k-1) != (seen[k-1] && segIn(s,k-1,p))) }
+
+//@ func containsPointSearcher
+//@   props C01
+//@   requires idx != nil && in != nil
+//@   assigns *idx, *in
+//@   ensures On: onSeg(seg.A, seg.B, point) ==> (!result && *in == allowOnEdge && *idx == index)
+//@   ensures Off: !onSeg(seg.A, seg.B, point) ==> (result && *idx == old(*idx) && *in == (old(*in) != rayIn(seg.A, seg.B, point)))
+
+// reporting one more (unseen) index toggles the set-parity by exactly that segment
+//@ lemma storeFold(seen set, s Series, p Point, i int, k int)
+//@   props C01
+//@   requires !seen[i] && 0 <= i
+//@   ensures parSeen(store(seen,i,true), s, p, k) == (parSeen(seen,s,p,k) != (i < k && segIn(s,i,p)))
+//@   induction k
+
+// a segment whose bounding box misses the horizontal strip through p is neither hit nor crossed
+//@ lemma noMatchNoHit(a Point, b Point, p Point)
+//@   props C01
+//@   requires inDom(a) && inDom(b) && inDom(p) && !rectsMeet(segRect(mkSegment(a,b)), strip(p)) && pinf > 4194304 && ninf < -4194304
+//@   ensures !onSeg(a,b,p) && !rayIn(a,b,p)
+
+// when the reported set is exactly the set of strip-matching segments and none of them is hit, set-parity is the full parity
+//@ lemma foldAll(seen set, s Series, p Point, k int)
+//@   props C01
+//@   requires SeriesInv(s) && seriesInDomSeg(s) && inDom(p) && pinf > 4194304 && ninf < -4194304
+//@   requires forall j int :: seen[j] == (0 <= j && j < sNseg(s) && rectsMeet(segRect(sSeg(s,j)), strip(p)))
+//@   requires forall j int :: seen[j] ==> !segOn(s,j,p)
+//@   requires k <= sNseg(s)
+//@   ensures parSeen(seen,s,p,k) == par(s,p,k) && !onAny(s,p,k)
+//@   induction k
+//@   use noMatchNoHit(sSeg(s,k-1).A, sSeg(s,k-1).B, p)
+//@   have Dom: inDom(sSeg(s,k-1).A) && inDom(sSeg(s,k-1).B)
+//@   have Seen: seen[k-1] == rectsMeet(segRect(sSeg(s,k-1)), strip(p))
+//@   have NotOn: seen[k-1] ==> !segOn(s,k-1,p)
+
+//@ spec func seriesInDomSeg(s Series) bool { forall j int :: 0 <= j && j < sNseg(s) ==> inDom(sSeg(s,j).A) && inDom(sSeg(s,j).B) }
+
+//@ lemma onAnyWitness(s Series, p Point, i int, k int)
+//@   props C01
+//@   requires 0 <= i && i < k && segOn(s,i,p)
+//@   ensures onAny(s,p,k)
+//@   induction k
+
+//@ lemma parSeenEmpty(s Series, p Point, k int)
+//@   props C01
+//@   ensures !parSeen(emptyset, s, p, k)
+//@   induction k
+
+//@ func ringContainsPointBaseSeries
+//@   props C01
+//@   entry use parSeenEmpty(ring, point, sNseg(ring))
+//@   free rect
+//@   requires ring != nil && SeriesInv(ring) && isBS(ring) && seriesInDomSeg(ring) && rect == strip(point)
+//@   ensures Hit: onAny(ring, point, sNseg(ring)) ==> (result0 == allowOnEdge && 0 <= result1 && result1 < sNseg(ring) && segOn(ring, result1, point))
+//@   ensures Miss: !onAny(ring, point, sNseg(ring)) ==> (result0 == par(ring, point, sNseg(ring)) && result1 == -1)
+//@   call 0 iterinv idx == -1 && in == parSeen(seen, ring, point, sNseg(ring)) && (forall j int :: seen[j] ==> !segOn(ring, j, point))
+//@   call 0 iterstop 0 <= idx && idx < sNseg(ring) && segOn(ring, idx, point) && in == allowOnEdge
+//@   call 0 use storeFold(seen, ring, point, $idx, sNseg(ring))
+//@   call 0 after use foldAll(seen, ring, point, sNseg(ring))
+//@   ret use onAnyWitness(ring, point, idx, sNseg(ring))
